@@ -1614,8 +1614,14 @@ class Engine(MatrixTheory, NumpyTheory, Evaluator):
     def havoc_for_loop(self, st, body, lc, extra_names=()):
         names, mutated = self.assigned_names(body)
         names |= set(extra_names)
+        tnames = set(getattr(self, '_loop_target_names', ()) or ())
         for rg in getattr(self, '_loop_rags', []):
-            tgt_mut = any(isinstance(n_, (ast.AugAssign, ast.Assign)) for b_ in body for n_ in ast.walk(b_))
+            # the rows of an iterated list of arrays change only when the loop variable holding a row is mutated in place (x += .., x[..] = ..,
+            # x.append(..)); when the target names are unknown, any assignment in the body counts (conservative)
+            if tnames:
+                tgt_mut = bool(tnames & mutated)
+            else:
+                tgt_mut = any(isinstance(n_, (ast.AugAssign, ast.Assign)) for b_ in body for n_ in ast.walk(b_))
             if tgt_mut:
                 rc = st.heap.rags[rg.ref]
                 tmp, cnt, lens = st.heap.fresh_rag(rc.etype, 'rag')
@@ -1841,6 +1847,10 @@ class Engine(MatrixTheory, NumpyTheory, Evaluator):
             seqs, targets_kind = [it], 'plain'
         elif isinstance(it, VAssoc) and not it.is_dict:
             seqs, targets_kind = [it.keys, it.vals], 'zip'        # a list of (int, array) pairs
+        elif isinstance(it, VRagItems):
+            # d.items() of an int-keyed dict modelled as a list of lists (keys 0..N-1 in insertion order): (key, list) pairs
+            it = VFunc('enumerate', 'enumerate', self_val=I(0), extra=[it.rag])
+            seqs, targets_kind = it.extra, 'enumerate'
         else:
             raise Unsupported('for over %r' % (it,))
         seqs = [s.lst if isinstance(s, VGen) else s for s in seqs]
@@ -1848,6 +1858,7 @@ class Engine(MatrixTheory, NumpyTheory, Evaluator):
             if isinstance(s, VTuple):
                 raise Unsupported('for over a tuple')
         self._loop_rags = [s for s in seqs if isinstance(s, VRag)]
+        self._loop_target_names = set(n_.id for n_ in ast.walk(stmt.target) if isinstance(n_, ast.Name))
         hidden = idx
         st.env[hidden] = VInt(0)
         if lc.get('seq'):
